@@ -1281,6 +1281,15 @@ class Node:
                 conn, DISCONNECT_REASON_CER_REJECTED)
             return
 
+        cea_origin_host = message.origin_host.decode()
+        if conn.node_name and cea_origin_host.lower() != conn.node_name.lower():
+            self.logger.warning(
+                f"{conn} CEA comes from {cea_origin_host} instead of "
+                f"{conn.node_name}, closing connection")
+            self.close_connection_socket(
+                conn, DISCONNECT_REASON_CER_REJECTED)
+            return
+
         # TODO: for SCTP, compare configured IP addresses with advertised and
         # remove those that are not mentioned
         cer_auth_apps = set(message.auth_application_id)
